@@ -519,3 +519,131 @@ func c20Reply(w *W) {
 func init() {
 	register(&Scenario{Name: "macat-reply", Prop: "C20", Horizon: time.Hour, Weight: 1, Run: c20Reply})
 }
+
+// c20ReplyStall: macat as a replier whose requester stops taking replies.
+// Requests arrive one per 10 ms from a scripted peer that accepts one reply
+// and then stalls; macat ends with its --send-timeout. The simulated clock
+// tells which request it was answering when it blocked (the one that arrived
+// exactly one send-timeout before it ended): that request and every earlier
+// one were received, so each is printed, once, in order - whatever became of
+// their replies.
+func c20ReplyStall(w *W) {
+	pat := []struct{ flag, kind string }{{"--rep", "rep"}, {"--respondent", "respondent"}}[w.Choose(simrt.SShape, 2)]
+	tmoS := 1 + w.Choose(simrt.SShape, 3)
+	w.SetShape("pattern", pat.flag)
+	w.SetShape("send_timeout_s", tmoS)
+	mn := w.UseMsgNet()
+	addr := w.Addr("msg")
+	mn.Endpoint(addr).SendCap = 1 + w.Choose(simrt.SShape, 3)
+	var out bytes.Buffer
+	app := &macat.App{}
+	app.Initialize()
+	app.VerifSetStdout(&out)
+	args := []string{pat.flag, "--bind", addr, "--ascii", "--data", "pong", "--send-timeout", strconv.Itoa(tmoS), "--recv-timeout", "3600"}
+	w.Op("macat %q", args)
+	run := w.Do("macat.Run", func() (interface{}, error) { return nil, app.Run(args...) })
+	w.Sleep(5 * time.Millisecond)
+	w.Settle()
+	peer := mn.Connect(addr)
+	w.Settle()
+	if peer == nil {
+		if run.Returned() {
+			w.Failf("HARNESS/macat", "macat %q ended at once: %v", args, run.Err)
+		}
+		return
+	}
+	// (requests 200 ms apart: far more than macat needs to wind up after the
+	// failing Send, so the request it was answering is identified by time)
+	const gap = 200 * time.Millisecond
+	var at []time.Duration
+	for n := 0; n < 40 && !run.Returned(); n++ {
+		at = append(at, w.Now())
+		peer.Inject(inbound(pat.kind, uint32(n+1), fmt.Sprintf("request-%03d", n)))
+		w.Sleep(gap)
+		w.Settle()
+	}
+	if !run.Wait(time.Duration(tmoS+5) * time.Second) {
+		w.Failf("C20/send-timeout-ignored", "macat %q: the requester stopped reading after %d replies; %v later macat is still running", args, mn.Endpoint(addr).SendCap, w.Now())
+		return
+	}
+	if run.Err == nil {
+		w.Probe("replier-never-blocked")
+		return
+	}
+	// the Send that timed out was invoked no later than (end - send timeout):
+	// the request being answered is the last one that had arrived by then
+	blockedBy := run.RetTime - time.Duration(tmoS)*time.Second
+	k := -1
+	for i, t := range at {
+		if t <= blockedBy {
+			k = i
+		}
+	}
+	if k < 0 || blockedBy-at[k] >= gap {
+		w.Probe("replier-stall-instant-not-identified")
+		return
+	}
+	var want bytes.Buffer
+	for i := 0; i <= k; i++ {
+		fmt.Fprintf(&want, "request-%03d\n", i)
+	}
+	if got := out.Bytes(); !bytes.Equal(got, want.Bytes()) {
+		gl := bytes.Count(got, []byte("\n"))
+		w.Failf("C20/received-request-not-printed", "macat %q ended at %v with %v: it had been blocked sending the reply to request-%03d (which arrived at %v) for its %ds send timeout, so it received requests 0..%d; it printed %d records (first difference at byte %d)", args, run.RetTime, run.Err, k, at[k], tmoS, k, gl, firstDiff(got, want.Bytes()))
+		return
+	}
+	w.Delivery += k + 1
+	w.Probe("replier-stalled-every-received-request-printed")
+}
+
+// c20ProcFile: --file naming a file whose size as reported by stat is not the
+// length of its content (procfs): the bytes sent are the file's content.
+func c20ProcFile(w *W) {
+	path := []string{"/proc/version", "/proc/self/cmdline", "/proc/cpuinfo"}[w.Choose(simrt.SShape, 3)]
+	body, err := os.ReadFile(path)
+	if err != nil || len(body) == 0 {
+		w.Probe("no-procfs")
+		return
+	}
+	if path == "/proc/cpuinfo" {
+		// (content may vary between two reads: only its leading, stable part is compared)
+	}
+	w.SetShape("file", path)
+	addr := w.Addr("inproc")
+	peer := w.Sock("pull")
+	defer peer.Close()
+	mustSet(w, peer, mangos.OptionRecvDeadline, 5*time.Second)
+	if err := peer.Listen(addr); err != nil {
+		w.Failf("HARNESS/listen", "%v", err)
+		return
+	}
+	app := &macat.App{}
+	app.Initialize()
+	var out bytes.Buffer
+	app.VerifSetStdout(&out)
+	args := []string{"--push", "--connect", addr, "--file", path}
+	w.Op("macat %q", args)
+	run := w.Do("macat.Run", func() (interface{}, error) { return nil, app.Run(args...) })
+	rc := w.Do("peer.Recv", func() (interface{}, error) { return peer.Recv() })
+	if !rc.Wait(6*time.Second) || rc.Err != nil {
+		w.Failf("C20/send-count", "macat %q: nothing arrived (%v)", args, rc.Err)
+		return
+	}
+	got := rc.Val.([]byte)
+	cmp := body
+	if path == "/proc/cpuinfo" && len(got) > 64 && len(cmp) > 64 {
+		got, cmp = got[:64], cmp[:64]
+	}
+	if !bytes.Equal(got, cmp) {
+		w.Failf("C20/sent-bytes-differ", "macat %q: the message has %d bytes, the file's content has %d (first difference at %d)", args, len(rc.Val.([]byte)), len(body), firstDiff(got, cmp))
+		return
+	}
+	run.Wait(5 * time.Second)
+	w.Delivery++
+	w.Probe("file-whose-stat-size-is-not-its-length")
+}
+
+func init() {
+	register(&Scenario{Name: "macat-reply-stalled-requester", Prop: "C20", Horizon: 2 * time.Hour, Weight: 1, Run: c20ReplyStall})
+	register(&Scenario{Name: "macat-file-procfs", Prop: "C20", Horizon: time.Hour, Weight: 1, Run: c20ProcFile})
+}
